@@ -161,6 +161,531 @@ def extract_fold(ctx, sliced, fired):
     fired['fold_tree'] = rw.fired
 
 
+# ---------------------------------------------------------------------------------------------------------------------
+# helpers for member functions of the reduce task / tree-node classes (written here, tools/ is not touched)
+# ---------------------------------------------------------------------------------------------------------------------
+def class_scope(text):
+    """class text with everything nested deeper than class scope blanked"""
+    mk = cxx2c.mask(text)
+    o = mk.find('{')
+    out, d = [], 0
+    for i, ch in enumerate(mk):
+        if i < o:
+            out.append(' ')
+            continue
+        if ch == '{':
+            d += 1
+        out.append(text[i] if d == 1 and ch not in '{}' else ' ')
+        if ch == '}':
+            d -= 1
+    return ''.join(out)
+
+
+def member_order(ctext, names, cname):
+    """declared order of the listed data members (C++ initialises bases first, then members in DECLARED order)"""
+    cs = class_scope(ctext)
+    pos = {}
+    for n in names:
+        hits = [m.start() for m in re.finditer(r'(?<![\w.>])%s\s*(?:\[[^\]]*\])?\s*;' % n, cs)]
+        if len(hits) != 1:
+            raise ExtractionBreak('%s: member %s declared %d times' % (cname, n, len(hits)))
+        pos[n] = hits[0]
+    return sorted(names, key=lambda n: pos[n])
+
+
+def nsdmi(ctext, names):
+    """default member initialisers `name{expr};` of the class"""
+    out = {}
+    for n in names:
+        m = re.search(r'(?<![\w.>])%s\s*\{([^{}]*)\}\s*;' % n, ctext)
+        if m:
+            out[n] = m.group(1).strip()
+    return out
+
+
+def slice_ctor(rel, sig, within):
+    """constructor slice: from the match of `sig` (a regex that covers the whole parameter list) to the close of the constructor BODY, skipping brace initialisers
+    of the init list (cxx2c.slice_block(ctor=True) mis-counts parentheses when the signature regex includes the closing one)"""
+    text = load(rel)
+    mk = cxx2c.mask(text)
+    w = re.search(within, mk)
+    if not w:
+        raise ExtractionBreak('%s: enclosing block %r not found' % (rel, within))
+    lo = w.start()
+    hi = cxx2c.match_close(mk, mk.find('{', w.end() - 1)) + 1
+    hits = list(re.finditer(sig, mk[lo:hi]))
+    if len(hits) != 1:
+        raise ExtractionBreak('%s: constructor %r found %d times' % (rel, sig, len(hits)))
+    st = lo + hits[0].start()
+    c = cxx2c.match_close(mk, mk.find('(', st), '(', ')')
+    j, depth = c + 1, 0
+    while j < hi:
+        ch = mk[j]
+        if ch == '(':
+            depth += 1
+        elif ch == ')':
+            depth -= 1
+        elif ch == ';' and depth == 0:
+            break
+        elif ch == '{' and depth == 0:
+            k = j - 1
+            while mk[k].isspace():
+                k -= 1
+            if mk[k] in ')}':
+                e = cxx2c.match_close(mk, j)
+                return cxx2c.Slice(rel, st, e + 1, cxx2c.strip_comments(text[st:e + 1]), cxx2c.line_of(text, st))
+            j = cxx2c.match_close(mk, j)
+        j += 1
+    raise ExtractionBreak('%s: constructor %r has no body' % (rel, sig))
+
+
+def ctor_c(rw, sl, csig, order, bases=(), defaults=None, cname=''):
+    """constructor slice -> `void csig { INIT_<m>_<argc>(self, args); ... body }`; init items in base-then-declared order;
+    members that the list does not mention take their default member initialiser (if the class text has one)"""
+    text = sl.text
+    mk = cxx2c.mask(text)
+    o = mk.find('(')
+    c = cxx2c.match_close(mk, o, '(', ')')
+    # body = first '{' at depth 0 that follows ')' '}' or whitespace-only after an init item
+    j, depth, b = c + 1, 0, None
+    while j < len(mk):
+        ch = mk[j]
+        if ch == '(':
+            depth += 1
+        elif ch == ')':
+            depth -= 1
+        elif ch == '{' and depth == 0:
+            k = j - 1
+            while mk[k].isspace():
+                k -= 1
+            if mk[k] in ')}':
+                b = j
+                break
+            j = cxx2c.match_close(mk, j)
+        j += 1
+    if b is None:
+        raise ExtractionBreak('%s: constructor body not found' % cname)
+    between = text[c + 1:b]
+    items = []
+    if between.strip():
+        if not between.strip().startswith(':'):
+            raise ExtractionBreak('%s: unexpected text after the constructor parameter list: %r' % (cname, between.strip()[:60]))
+        for it in targs(between.strip()[1:]):
+            im = re.match(r'(?s)\s*(\w+)\s*[\(\{](.*)[\)\}]\s*$', it)
+            if not im:
+                raise ExtractionBreak('%s: cannot parse init-list item %r' % (cname, it))
+            items.append((im.group(1), [a for a in targs(im.group(2)) if a != '']))
+    names = [n for n, _ in items]
+    for n in names:
+        if n not in order and n not in bases:
+            raise ExtractionBreak('%s: init-list names %s, which is neither a harvested member nor a base' % (cname, n))
+    for n, ex in (defaults or {}).items():
+        if n not in names:
+            items.append((n, [ex]))
+    seq = list(bases) + list(order)
+    items.sort(key=lambda x: seq.index(x[0]))
+    init = ''.join('    INIT_%s_%d(self%s);\n' % (n, len(a), ''.join(', ' + x for x in a)) for n, a in items)
+    rw.fired['ctor-init-list -> INIT_<member>_<argc>() in base-then-declared order'] = rw.fired.get('ctor-init-list -> INIT_<member>_<argc>() in base-then-declared order', 0) + len(items)
+    return 'void %s {\n%s%s' % (csig, init, text[b + 1:])
+
+
+def refs(rw, t, names, minc=0):
+    """reference parameters became pointers: every use `p` -> `(*p)`"""
+    b = cxx2c.mask(t).find('{')          # the (already C) signature is left alone
+    head, t = t[:b], t[b:]
+    for n in names:
+        t = rw.sub(t, r'(?<![\w.>])%s\b(?!\s*\()' % n, '(*%s)' % n, minc, name='ref-param %s -> (*%s)' % (n, n))
+    return head + t
+
+
+def body_of(t):
+    """function text from its first '{' (signature is replaced by the caller)"""
+    return t[cxx2c.mask(t).find('{'):]
+
+
+def common_calls(rw, t):
+    t = rw.sub(t, r'small_object_allocator alloc\{\};', 'small_object_allocator alloc; ALLOCATOR_INIT(alloc);', 0, name='value-initialised allocator')
+    t = rw.sub(t, r'\(\*this\)', '(*self)', 0, name='*this')
+    t = rw.sub(t, r'\*this\b', '(*self)', 0, name='*this')
+    t = rw.sub(t, r'\bthis\b', 'self', 0, name='this')
+    t = rw.sub(t, r'\bsplit\(\)', 'SPLIT_TAG', 0, name='split() tag object')
+    t = rw.sub(t, r'\bdetail::SPLIT_TAG', 'SPLIT_TAG', 0, name='ns-strip')
+    return t
+
+
+REDUCE_MEMBERS = ['my_range', 'my_body', 'my_parent', 'my_partition', 'my_allocator', 'is_right_child']
+DET_MEMBERS = ['my_range', 'my_body', 'my_parent', 'my_partition', 'my_allocator']
+
+
+def extract_nodes(ctx, sliced, rw):
+    """partitioner.h node / tree_node constructors"""
+    out = []
+    ncls = slice_block(PT, r'struct node \{')
+    order = member_order(ncls.text, ['my_parent', 'm_ref_count'], 'node')
+    s = slice_ctor(PT, r'node\(node\* parent, int ref_count\) :', r'struct node \{')
+    sliced.append('%s:%d node::node(parent, ref_count)' % (PT, s.line))
+    t = ctor_c(rw, s, 'node_ctor(struct node* self, struct node* parent, int ref_count)', order, cname='node')
+    t = rw.asserts(t, 0)
+    out.append(t)
+    tcls = slice_block(PT, r'struct tree_node : public node \{')
+    order = member_order(tcls.text, ['m_allocator', 'm_child_stolen'], 'tree_node')
+    s = slice_ctor(PT, r'tree_node\(node\* parent, int ref_count, small_object_allocator& alloc\)', r'struct tree_node : public node \{')
+    sliced.append('%s:%d tree_node::tree_node(parent, ref_count, alloc)' % (PT, s.line))
+    t = ctor_c(rw, s, 'tree_node_ctor(struct node* self, struct node* parent, int ref_count, small_object_allocator* alloc)', order, bases=['node'],
+               defaults=nsdmi(tcls.text, ['m_child_stolen']), cname='tree_node')
+    t = refs(rw, t, ['alloc'])
+    out.append(t)
+    wcls = slice_block(PT, r'struct wait_node : node \{')
+    order = member_order(wcls.text, ['m_wait'], 'wait_node')
+    s = slice_ctor(PT, r'wait_node\(\)', r'struct wait_node : node \{')
+    sliced.append('%s:%d wait_node::wait_node()' % (PT, s.line))
+    out.append(ctor_c(rw, s, 'wait_node_ctor(struct node* self)', order, bases=['node'], defaults=nsdmi(wcls.text, ['m_wait']), cname='wait_node'))
+    return '\n'.join(out) + '\n'
+
+
+def join_rules(rw, t):
+    """X.join(Y) / P->join(Y) on body objects -> Body_join(&X, &Y): reference argument -> pointer; orientation is kept as written"""
+    t = rw.sub(t, r'\bzombie_space\.begin\(\)', 'ZOMBIE_BEGIN(self)', 0, name='aligned_space::begin() -> ZOMBIE_BEGIN(self)')
+    t = rw.sub(t, r'(?<![\w.>])left_body\b', '(*self->left_body)', 0, name='reference member left_body -> (*self->left_body)')
+    t = rw.sub(t, r'(?<![\w.>])right_body\b', '(self->right_body)', 0, name='field')
+    t = rw.sub(t, r'(?<![\w.>])has_right_zombie\b', 'self->has_right_zombie', 0, name='field')
+    lv = r'(\(\*self->left_body\)|\(self->right_body\)|\*ZOMBIE_BEGIN\(self\)|\(\*ZOMBIE_BEGIN\(self\)\))'
+    t = rw.sub(t, lv + r'\.join\(\s*' + lv + r'\s*\)', r'Body_join(&(\1), &(\2))', 0, name='lvalue.join(lvalue) -> Body_join(&dst, &src)')
+    t = rw.sub(t, r'ZOMBIE_BEGIN\(self\)->join\(\s*' + lv + r'\s*\)', r'Body_join(ZOMBIE_BEGIN(self), &(\1))', 0, name='ptr->join(lvalue) -> Body_join(dst, &src)')
+    t = rw.sub(t, r'\bcontext->is_group_execution_cancelled\(\)', 'STUB_is_cancelled(context)', 0, name='callee stub (context query)')
+    return t
+
+
+def extract_reduce(ctx, sliced, fired):
+    """parallel_reduce.h: reduction_tree_node, start_reduce (constructors, run, offer_work_impl, execute, finalize, cancel)"""
+    rw = Rewriter('start_reduce')
+    out = [extract_nodes(ctx, sliced, rw)]
+    RN = r'struct reduction_tree_node : public tree_node \{'
+    rcls = slice_block(PR, RN)
+    order = member_order(rcls.text, ['zombie_space', 'left_body', 'has_right_zombie'], 'reduction_tree_node')
+    s = slice_ctor(PR, r'reduction_tree_node\(node\* parent, int ref_count, Body& input_left_body, small_object_allocator& alloc\)', RN)
+    sliced.append('%s:%d reduction_tree_node::reduction_tree_node' % (PR, s.line))
+    t = ctor_c(rw, s, 'reduction_tree_node_ctor(struct node* self, struct node* parent, int ref_count, Body* input_left_body, small_object_allocator* alloc)', order, bases=['tree_node'],
+               defaults=nsdmi(rcls.text, ['has_right_zombie']), cname='reduction_tree_node')
+    t = refs(rw, t, ['input_left_body', 'alloc'])
+    out.append(t)
+    s = slice_block(PR, r'void join\(task_group_context\* context\)', within=RN)
+    sliced.append('%s:%d reduction_tree_node::join' % (PR, s.line))
+    t = 'void reduction_tree_node_join(struct node* self, task_group_context* context) ' + body_of(s.text)
+    t = join_rules(rw, t)
+    out.append(t)
+    # ---- start_reduce
+    SR = r'struct start_reduce : public task \{'
+    scls = slice_block(PR, SR)
+    order = member_order(scls.text, REDUCE_MEMBERS, 'start_reduce')
+
+    def fields(t):
+        return rw.fields(t, REDUCE_MEMBERS, 0)
+    s = slice_ctor(PR, r'start_reduce\( const Range& range, Body& body, Partitioner& partitioner, small_object_allocator& alloc \)', SR)
+    sliced.append('%s:%d start_reduce root constructor' % (PR, s.line))
+    t = ctor_c(rw, s, 'start_reduce_ctor_root(struct start_reduce* self, const Range* range, Body* body, Partitioner* partitioner, small_object_allocator* alloc)', order, cname='start_reduce')
+    t = refs(rw, t, ['range', 'body', 'partitioner', 'alloc'])
+    out.append(t)
+    s = slice_ctor(PR, r'start_reduce\( start_reduce& parent_, typename Partitioner::split_type& split_obj, small_object_allocator& alloc \)', SR)
+    sliced.append('%s:%d start_reduce splitting constructor' % (PR, s.line))
+    t = ctor_c(rw, s, 'start_reduce_ctor_split(struct start_reduce* self, struct start_reduce* parent_, split_type* split_obj, small_object_allocator* alloc)', order, cname='start_reduce')
+    t = rw.sub(t, r'get_range_split_object<Range>\(', 'STUB_get_range_split_object(', 0, name='callee stub')
+    t = common_calls(rw, t)
+    t = refs(rw, t, ['parent_', 'split_obj', 'alloc'])
+    out.append(t)
+    s = slice_ctor(PR, r'start_reduce\( start_reduce& parent_, const Range& r, depth_t d, small_object_allocator& alloc \)', SR)
+    sliced.append('%s:%d start_reduce demand constructor' % (PR, s.line))
+    t = ctor_c(rw, s, 'start_reduce_ctor_demand(struct start_reduce* self, struct start_reduce* parent_, const Range* r, depth_t d, small_object_allocator* alloc)', order, cname='start_reduce')
+    t = common_calls(rw, t)
+    t = rw.sub(t, r'(?<![\w.>])my_partition\.align_depth\(\s*d\s*\);', 'Partition_align_depth(&self->my_partition, d);', 0, name='member-object method')
+    t = refs(rw, t, ['parent_', 'r', 'alloc'])
+    out.append(t)
+    # run (4 arguments), run (3 arguments)
+    s = slice_block(PR, r'static void run\(const Range& range, Body& body, Partitioner& partitioner, task_group_context& context\)', within=SR)
+    sliced.append('%s:%d start_reduce::run(range, body, partitioner, context)' % (PR, s.line))
+    t = 'void start_reduce_run4(const Range* range, Body* body, Partitioner* partitioner, task_group_context* context) ' + body_of(s.text)
+    t = rw.sub(t, r'\brange\.empty\(\)', 'Range_empty(range)', 0, name='Range::empty()')
+    t = rw.sub(t, r'wait_node wn;', 'wait_node wn; WAIT_NODE_CTOR(wn);', 0, name='default-constructed wait_node')
+    t = common_calls(rw, t)
+    t = rw.sub(t, r'auto reduce_task = alloc\.new_object<start_reduce>\(range, body, partitioner, alloc\);', 'struct start_reduce* reduce_task = NEW_start_reduce_root(alloc, range, body, partitioner, alloc);', 0,
+               name='alloc.new_object<T>(args) -> NEW_T(alloc, args): allocate, then the sliced constructor')
+    t = rw.sub(t, r'execute_and_wait\(\*reduce_task, context, wn\.m_wait, context\);', 'EXECUTE_AND_WAIT(*reduce_task, context, wn.m_wait, context);', 0, name='callee stub (r1::execute_and_wait)')
+    t = rw.sub(t, r'execute_and_wait\(([^;]*)\);', r'EXECUTE_AND_WAIT(\1);', 0, name='callee stub (r1::execute_and_wait)')
+    t = refs(rw, t, ['range', 'body', 'partitioner', 'context'])
+    out.append(t)
+    s = slice_block(PR, r'static void run\(const Range& range, Body& body, Partitioner& partitioner\)', within=SR)
+    sliced.append('%s:%d start_reduce::run(range, body, partitioner)' % (PR, s.line))
+    t = 'void start_reduce_run3(const Range* range, Body* body, Partitioner* partitioner) ' + body_of(s.text)
+    t = rw.sub(t, r'task_group_context context\(PARALLEL_REDUCE\);', 'task_group_context context; CONTEXT_CTOR(context, PARALLEL_REDUCE);', 0, name='local context object + constructor')
+    t = rw.sub(t, r'(?<![\w.>])run\(range, body, partitioner, context\);', 'RUN4(range, body, partitioner, context);', 0, name='static member call')
+    t = refs(rw, t, ['range', 'body', 'partitioner'])
+    out.append(t)
+    # offer_work_impl: the two instantiations of the parameter pack
+    if not re.search(r'void offer_work\(typename Partitioner::split_type& split_obj, execution_data& ed\) \{\s*offer_work_impl\(ed, \*this, split_obj\);', scls.text) or \
+       not re.search(r'void offer_work\(const Range& r, depth_t d, execution_data& ed\) \{\s*offer_work_impl\(ed, \*this, r, d\);', scls.text):
+        raise ExtractionBreak('start_reduce::offer_work no longer forwards (ed, *this, split_obj) / (ed, *this, r, d) to offer_work_impl')
+    s = slice_block(PR, r'void offer_work_impl\(execution_data& ed, Args&&\.\.\. args\)', within=SR)
+    sliced.append('%s:%d start_reduce::offer_work_impl<Args...> (instantiated for (start_reduce&, split_type&) and (start_reduce&, const Range&, depth_t))' % (PR, s.line))
+    for suffix, cparams, pack, newer in (('split', 'struct start_reduce* a0, split_type* a1', '(*a0), (*a1)', 'NEW_start_reduce_split'),
+                                          ('demand', 'struct start_reduce* a0, const Range* a1, depth_t a2', '(*a0), (*a1), a2', 'NEW_start_reduce_demand')):
+        t = 'void start_reduce_offer_work_impl_%s(struct start_reduce* self, execution_data* ed, %s) ' % (suffix, cparams) + body_of(s.text)
+        t = common_calls(rw, t)
+        t = rw.sub(t, r'auto right_child = alloc\.new_object<start_reduce>\(ed, std::forward<Args>\(args\)\.\.\., alloc\);', 'struct start_reduce* right_child = %s(alloc, ed, %s, alloc);' % (newer, pack), 0,
+                   name='alloc.new_object<start_reduce>(ed, pack..., alloc) -> NEW_start_reduce_<ctor>(alloc, ed, pack, alloc)')
+        t = rw.sub(t, r'alloc\.new_object<tree_node_type>\(ed, my_parent, 2, \*my_body, alloc\)', 'NEW_tree_node(alloc, ed, my_parent, 2, *my_body, alloc)', 0, name='alloc.new_object<tree_node_type>(ed, args) -> NEW_tree_node(alloc, ed, args)')
+        t = rw.sub(t, r'alloc\.new_object<tree_node_type>\(ed, ([^;]*)\);', r'NEW_tree_node(alloc, ed, \1);', 0, name='alloc.new_object<tree_node_type>(ed, args) -> NEW_tree_node(alloc, ed, args)')
+        t = rw.sub(t, r'right_child->spawn_self\(ed\);', 'start_reduce_spawn_self(right_child, ed);', 0, name='method call')
+        t = fields(t)
+        out.append(t)
+    s = slice_block(PR, r'void spawn_self\(execution_data& ed\)', within=SR)
+    sliced.append('%s:%d start_reduce::spawn_self' % (PR, s.line))
+    t = 'void start_reduce_spawn_self(struct start_reduce* self, execution_data* ed) ' + body_of(s.text)
+    t = common_calls(rw, t)
+    t = rw.sub(t, r'(?<![\w.>])my_partition\.spawn_task\(\(\*self\), \*context\(ed\)\);', 'Partition_spawn_task(&self->my_partition, self, STUB_context(ed));', 0, name='member-object method + task context accessor')
+    out.insert(len(out) - 2, 'void start_reduce_spawn_self(struct start_reduce* self, execution_data* ed);')
+    out.append(t)
+    # finalize / execute / cancel (defined out of class)
+    s = slice_block(PR, r'void start_reduce<Range, Body, Partitioner>::finalize\(const execution_data& ed\)')
+    sliced.append('%s:%d start_reduce::finalize' % (PR, s.line))
+    t = 'void start_reduce_finalize(struct start_reduce* self, const execution_data* ed) ' + body_of(s.text)
+    t = rw.sub(t, r'auto allocator = my_allocator;', 'small_object_allocator allocator = my_allocator;', 0, name='auto')
+    t = rw.sub(t, r'this->~start_reduce\(\);', 'STUB_task_dtor(self);', 0, name='explicit destructor call -> stub (poisons the task)')
+    t = rw.sub(t, r'fold_tree<tree_node_type>\(parent, ed\);', 'STUB_fold_tree(parent, ed);', 0, name='callee stub (proved separately: job reduce.fold_tree)')
+    t = rw.sub(t, r'fold_tree<tree_node_type>\(([^;]*)\);', r'STUB_fold_tree(\1);', 0, name='callee stub (proved separately: job reduce.fold_tree)')
+    t = rw.sub(t, r'allocator\.deallocate\(this, ed\);', 'STUB_deallocate(&allocator, self, ed);', 0, name='callee stub')
+    t = common_calls(rw, t)
+    t = fields(t)
+    t = rw.std(t)
+    out.append(t)
+    s = slice_block(PR, r'task\* start_reduce<Range,Body,Partitioner>::execute\(execution_data& ed\)')
+    sliced.append('%s:%d start_reduce::execute' % (PR, s.line))
+    t = 'task* start_reduce_execute(struct start_reduce* self, execution_data* ed) ' + body_of(s.text)
+    t = rw.sub(t, r'is_same_affinity\(ed\)', 'STUB_is_same_affinity(ed)', 0, name='callee stub')
+    t = rw.sub(t, r'(?<![\w.>])my_partition\.note_affinity\(execution_slot\(ed\)\);', 'Partition_note_affinity(&self->my_partition, STUB_execution_slot(ed));', 0, name='member-object method')
+    t = rw.sub(t, r'(?<![\w.>])my_partition\.check_being_stolen\(\*this, ed\);', 'Partition_check_being_stolen(&self->my_partition, self, ed);', 0, name='member-object method')
+    t = rw.sub(t, r'(?<![\w.>])my_partition\.execute\(\*this, my_range, ed\);', 'Partition_execute(&self->my_partition, self, &self->my_range, ed);', 0, name='member-object method (stub: the partitioner runs run_body / offer_work on this task)')
+    t = rw.atomics(t, ['m_ref_count'], 0)
+    t = rw.sub(t, r'new\(\s*parent_ptr->zombie_space\.begin\(\)\s*\)\s*Body\(\*my_body, split\(\)\)', 'Body_split_ctor(ZOMBIE_BEGIN(parent_ptr), &(*my_body))', 0,
+               name='placement-new of Body(*my_body, split()) into the zombie space -> Body_split_ctor(place, &source)')
+    t = rw.sub(t, r'new\(\s*([^()]*(?:\([^()]*\))?[^()]*)\)\s*Body\(([^;]*), split\(\)\)', r'Body_split_ctor(\1, &(\2))', 0, name='placement-new of Body(x, split()) -> Body_split_ctor(place, &source)')
+    t = rw.sub(t, r'\bzombie_space\.begin\(\)', 'ZOMBIE_BEGIN(parent_ptr)', 0, name='aligned_space::begin()')
+    t = rw.sub(t, r'parent_ptr->ZOMBIE_BEGIN\(parent_ptr\)', 'ZOMBIE_BEGIN(parent_ptr)', 0, name='aligned_space::begin()')
+    t = rw.sub(t, r'(?<![\w.>])finalize\(ed\);', 'start_reduce_finalize(self, ed);', 0, name='method')
+    t = common_calls(rw, t)
+    t = fields(t)
+    t = rw.casts(t, 0)
+    t = rw.asserts(t, 0)
+    t = rw.std(t)
+    t = rw.number_sites(t, 'exec', by_kind=True)
+    out.append(t)
+    s = slice_block(PR, r'task\* start_reduce<Range, Body, Partitioner>::cancel\(execution_data& ed\)')
+    sliced.append('%s:%d start_reduce::cancel' % (PR, s.line))
+    t = 'task* start_reduce_cancel(struct start_reduce* self, execution_data* ed) ' + body_of(s.text)
+    t = rw.sub(t, r'(?<![\w.>])finalize\(ed\);', 'start_reduce_finalize(self, ed);', 0, name='method')
+    t = rw.std(t)
+    out.append(t)
+    common.write(ctx, 'reduce.inc', rw.std('\n'.join(out)) + '\n')
+    fired['start_reduce'] = rw.fired
+
+
+def sched_reads(rw, t):
+    """any read of a reference count or stolen flag (whatever object expression it hangs on) is marked: value + SCHEDULE_DEPENDENT(0)"""
+    return rw.sub(t, r'\b(m_ref_count|m_child_stolen)\.load\([^()]*\)', r'\1 + SCHEDULE_DEPENDENT(0)', 0, name='read of schedule-dependent state -> marked')
+
+
+def extract_detred(ctx, sliced, fired):
+    """parallel_reduce.h: deterministic_reduction_tree_node, start_deterministic_reduce (constructors, run, offer_work_impl, execute, finalize, cancel)"""
+    rw = Rewriter('start_deterministic_reduce')
+    out = [extract_nodes(ctx, [], rw)]
+    DN = r'struct deterministic_reduction_tree_node : public tree_node \{'
+    dcls = slice_block(PR, DN)
+    order = member_order(dcls.text, ['right_body', 'left_body'], 'deterministic_reduction_tree_node')
+    s = slice_ctor(PR, r'deterministic_reduction_tree_node\(node\* parent, int ref_count, Body& input_left_body, small_object_allocator& alloc\)', DN)
+    sliced.append('%s:%d deterministic_reduction_tree_node constructor' % (PR, s.line))
+    t = ctor_c(rw, s, 'deterministic_reduction_tree_node_ctor(struct node* self, struct node* parent, int ref_count, Body* input_left_body, small_object_allocator* alloc)', order, bases=['tree_node'], cname='deterministic_reduction_tree_node')
+    t = common_calls(rw, t)
+    t = refs(rw, t, ['input_left_body', 'alloc'])
+    t = rw.sub(t, r'(?<![\w.>])right_body\b', 'self->right_body', 0, name='field')
+    t = rw.sub(t, r'(?<![\w.>])left_body\b', '(*self->left_body)', 0, name='reference member left_body -> (*self->left_body)')
+    out.append(t)
+    s = slice_block(PR, r'void join\(task_group_context\* context\)', within=DN)
+    sliced.append('%s:%d deterministic_reduction_tree_node::join' % (PR, s.line))
+    t = 'void deterministic_reduction_tree_node_join(struct node* self, task_group_context* context) ' + body_of(s.text)
+    t = join_rules(rw, t)
+    out.append(t)
+    SD = r'struct start_deterministic_reduce : public task \{'
+    scls = slice_block(PR, SD)
+    order = member_order(scls.text, DET_MEMBERS, 'start_deterministic_reduce')
+
+    def fields(t):
+        t = rw.sub(t, r'(?<![\w.>])my_body\b', '(*self->my_body)', 0, name='reference member my_body -> (*self->my_body)')
+        return rw.fields(t, [m for m in DET_MEMBERS if m != 'my_body'], 0)
+    s = slice_ctor(PR, r'start_deterministic_reduce\( const Range& range, Partitioner& partitioner, Body& body, small_object_allocator& alloc \)', SD)
+    sliced.append('%s:%d start_deterministic_reduce root constructor' % (PR, s.line))
+    t = ctor_c(rw, s, 'start_deterministic_reduce_ctor_root(struct start_deterministic_reduce* self, const Range* range, Partitioner* partitioner, Body* body, small_object_allocator* alloc)', order, cname='start_deterministic_reduce')
+    t = refs(rw, t, ['range', 'body', 'partitioner', 'alloc'])
+    out.append(t)
+    s = slice_ctor(PR, r'start_deterministic_reduce\( start_deterministic_reduce& parent_, typename Partitioner::split_type& split_obj, Body& body,\s*small_object_allocator& alloc \)', SD)
+    sliced.append('%s:%d start_deterministic_reduce splitting constructor' % (PR, s.line))
+    t = ctor_c(rw, s, 'start_deterministic_reduce_ctor_split(struct start_deterministic_reduce* self, struct start_deterministic_reduce* parent_, split_type* split_obj, Body* body, small_object_allocator* alloc)', order, cname='start_deterministic_reduce')
+    t = rw.sub(t, r'get_range_split_object<Range>\(', 'STUB_get_range_split_object(', 0, name='callee stub')
+    t = common_calls(rw, t)
+    t = refs(rw, t, ['parent_', 'split_obj', 'body', 'alloc'])
+    out.append(t)
+    s = slice_block(PR, r'static void run\(const Range& range, Body& body, Partitioner& partitioner, task_group_context& context\)', within=SD)
+    sliced.append('%s:%d start_deterministic_reduce::run(range, body, partitioner, context)' % (PR, s.line))
+    t = 'void start_deterministic_reduce_run4(const Range* range, Body* body, Partitioner* partitioner, task_group_context* context) ' + body_of(s.text)
+    t = rw.sub(t, r'\brange\.empty\(\)', 'Range_empty(range)', 0, name='Range::empty()')
+    t = rw.sub(t, r'wait_node wn;', 'wait_node wn; WAIT_NODE_CTOR(wn);', 0, name='default-constructed wait_node')
+    t = common_calls(rw, t)
+    t = rw.sub(t, r'auto deterministic_reduce_task =\s*alloc\.new_object<start_deterministic_reduce>\(range, partitioner, body, alloc\);',
+               'struct start_deterministic_reduce* deterministic_reduce_task = NEW_start_deterministic_reduce_root(alloc, range, partitioner, body, alloc);', 0, name='alloc.new_object<T>(args) -> NEW_T(alloc, args): allocate, then the sliced constructor')
+    t = rw.sub(t, r'execute_and_wait\(([^;]*)\);', r'EXECUTE_AND_WAIT(\1);', 0, name='callee stub (r1::execute_and_wait)')
+    t = refs(rw, t, ['range', 'body', 'partitioner', 'context'])
+    out.append(t)
+    s = slice_block(PR, r'static void run\(const Range& range, Body& body, Partitioner& partitioner\)', within=SD)
+    sliced.append('%s:%d start_deterministic_reduce::run(range, body, partitioner)' % (PR, s.line))
+    t = 'void start_deterministic_reduce_run3(const Range* range, Body* body, Partitioner* partitioner) ' + body_of(s.text)
+    t = rw.sub(t, r'task_group_context context\(PARALLEL_REDUCE\);', 'task_group_context context; CONTEXT_CTOR(context, PARALLEL_REDUCE);', 0, name='local context object + constructor')
+    t = rw.sub(t, r'(?<![\w.>])run\(range, body, partitioner, context\);', 'RUN4(range, body, partitioner, context);', 0, name='static member call')
+    t = refs(rw, t, ['range', 'body', 'partitioner'])
+    out.append(t)
+    if not re.search(r'void offer_work\(typename Partitioner::split_type& split_obj, execution_data& ed\) \{\s*offer_work_impl\(ed, \*this, split_obj\);', scls.text):
+        raise ExtractionBreak('start_deterministic_reduce::offer_work no longer forwards (ed, *this, split_obj) to offer_work_impl')
+    s = slice_block(PR, r'void offer_work_impl\(execution_data& ed, Args&&\.\.\. args\)', within=SD)
+    sliced.append('%s:%d start_deterministic_reduce::offer_work_impl<Args...> (instantiated for (start_deterministic_reduce&, split_type&))' % (PR, s.line))
+    t = 'void start_deterministic_reduce_offer_work_impl(struct start_deterministic_reduce* self, execution_data* ed, struct start_deterministic_reduce* a0, split_type* a1) ' + body_of(s.text)
+    t = common_calls(rw, t)
+    t = rw.sub(t, r'auto new_tree_node = alloc\.new_object<tree_node_type>\(ed, ([^;]*)\);', r'tree_node_type* new_tree_node = NEW_det_tree_node(alloc, ed, \1);', 0, name='alloc.new_object<tree_node_type>(ed, args) -> NEW_det_tree_node(alloc, ed, args)')
+    t = rw.sub(t, r'auto right_child = alloc\.new_object<start_deterministic_reduce>\(ed, std::forward<Args>\(args\)\.\.\., ([^;]*)\);',
+               r'struct start_deterministic_reduce* right_child = NEW_start_deterministic_reduce_split(alloc, ed, (*a0), (*a1), \1);', 0, name='alloc.new_object<start_deterministic_reduce>(ed, pack..., args) -> NEW_start_deterministic_reduce_split(alloc, ed, pack, args)')
+    t = rw.sub(t, r'right_child->spawn_self\(ed\);', 'start_deterministic_reduce_spawn_self(right_child, ed);', 0, name='method call')
+    t = sched_reads(rw, t)
+    t = fields(t)
+    out.append('void start_deterministic_reduce_spawn_self(struct start_deterministic_reduce* self, execution_data* ed);')
+    out.append(t)
+    s = slice_block(PR, r'void spawn_self\(execution_data& ed\)', within=SD)
+    sliced.append('%s:%d start_deterministic_reduce::spawn_self' % (PR, s.line))
+    t = 'void start_deterministic_reduce_spawn_self(struct start_deterministic_reduce* self, execution_data* ed) ' + body_of(s.text)
+    t = common_calls(rw, t)
+    t = rw.sub(t, r'(?<![\w.>])my_partition\.spawn_task\(\(\*self\), \*context\(ed\)\);', 'Partition_spawn_task(&self->my_partition, self, STUB_context(ed));', 0, name='member-object method + task context accessor')
+    out.append(t)
+    s = slice_block(PR, r'void start_deterministic_reduce<Range, Body, Partitioner>::finalize\(const execution_data& ed\)')
+    sliced.append('%s:%d start_deterministic_reduce::finalize' % (PR, s.line))
+    t = 'void start_deterministic_reduce_finalize(struct start_deterministic_reduce* self, const execution_data* ed) ' + body_of(s.text)
+    t = rw.sub(t, r'auto allocator = my_allocator;', 'small_object_allocator allocator = my_allocator;', 0, name='auto')
+    t = rw.sub(t, r'this->~start_deterministic_reduce\(\);', 'STUB_task_dtor(self);', 0, name='explicit destructor call -> stub (poisons the task)')
+    t = rw.sub(t, r'fold_tree<tree_node_type>\(([^;]*)\);', r'STUB_fold_tree(\1);', 0, name='callee stub (proved separately: job reduce.fold_tree)')
+    t = rw.sub(t, r'allocator\.deallocate\(this, ed\);', 'STUB_deallocate(&allocator, self, ed);', 0, name='callee stub')
+    t = common_calls(rw, t)
+    t = fields(t)
+    out.append(t)
+    s = slice_block(PR, r'task\* start_deterministic_reduce<Range,Body,Partitioner>::execute\(execution_data& ed\)')
+    sliced.append('%s:%d start_deterministic_reduce::execute' % (PR, s.line))
+    t = 'task* start_deterministic_reduce_execute(struct start_deterministic_reduce* self, execution_data* ed) ' + body_of(s.text)
+    t = rw.sub(t, r'is_same_affinity\(ed\)', 'STUB_is_same_affinity(ed)', 0, name='callee stub')
+    t = rw.sub(t, r'(?<![\w.>])my_partition\.note_affinity\(execution_slot\(ed\)\);', 'Partition_note_affinity(&self->my_partition, STUB_execution_slot(ed));', 0, name='member-object method')
+    t = rw.sub(t, r'(?<![\w.>])my_partition\.check_being_stolen\(\*this, ed\);', 'Partition_check_being_stolen(&self->my_partition, self, ed);', 0, name='member-object method')
+    t = rw.sub(t, r'(?<![\w.>])my_partition\.execute\(\*this, my_range, ed\);', 'Partition_execute(&self->my_partition, self, &self->my_range, ed);', 0, name='member-object method (stub: the partitioner runs run_body / offer_work on this task)')
+    t = sched_reads(rw, t)
+    t = rw.sub(t, r'(?<![\w.>])finalize\(ed\);', 'start_deterministic_reduce_finalize(self, ed);', 0, name='method')
+    t = common_calls(rw, t)
+    t = fields(t)
+    t = rw.casts(t, 0)
+    t = rw.asserts(t, 0)
+    out.append(t)
+    s = slice_block(PR, r'task\* start_deterministic_reduce<Range, Body, Partitioner>::cancel\(execution_data& ed\)')
+    sliced.append('%s:%d start_deterministic_reduce::cancel' % (PR, s.line))
+    t = 'task* start_deterministic_reduce_cancel(struct start_deterministic_reduce* self, execution_data* ed) ' + body_of(s.text)
+    t = rw.sub(t, r'(?<![\w.>])finalize\(ed\);', 'start_deterministic_reduce_finalize(self, ed);', 0, name='method')
+    out.append(t)
+    common.write(ctx, 'detred.inc', rw.std('\n'.join(out)) + '\n')
+    fired['start_deterministic_reduce'] = rw.fired
+
+
+LAMBDA_MEMBERS = ['my_identity_element', 'my_real_body', 'my_reduction', 'my_value']
+
+
+def extract_lambda(ctx, sliced, fired):
+    """parallel_reduce.h: lambda_reduce_body (the adaptor behind the functional overloads): constructors, operator(), join"""
+    rw = Rewriter('lambda_reduce_body')
+    LB = r'class lambda_reduce_body \{'
+    cls = slice_block(PR, LB)
+    order = member_order(cls.text, LAMBDA_MEMBERS, 'lambda_reduce_body')
+    out = []
+
+    def fields(t):
+        t = rw.sub(t, r'(?<![\w.>])(my_identity_element|my_real_body|my_reduction)\b', r'(*self->\1)', 0, name='reference member m -> (*self->m)')
+        t = rw.sub(t, r'\b(other|rhs)\.(my_identity_element|my_real_body|my_reduction)\b', r'(*\1->\2)', 0, name='reference member of a reference parameter')
+        t = rw.sub(t, r'\b(other|rhs)\.my_value\b', r'\1->my_value', 0, name='ref-param')
+        t = rw.sub(t, r'(?<![\w.>])my_value\b', 'self->my_value', 0, name='field')
+        t = rw.sub(t, r'tbb::detail::invoke\(', 'INVOKE(', 0, name='tbb::detail::invoke(f, a, b) -> INVOKE(f, a, b)')
+        t = rw.sub(t, r'std::move\(', 'MOVE(', 0, name='std::move')
+        return t
+    s = slice_ctor(PR, r'lambda_reduce_body\( const Value& identity, const RealBody& body, const Reduction& reduction \)', LB)
+    sliced.append('%s:%d lambda_reduce_body constructor' % (PR, s.line))
+    t = ctor_c(rw, s, 'lambda_reduce_body_ctor(struct lambda_reduce_body* self, const Value* identity, const RealBody* body, const Reduction* reduction)', order, cname='lambda_reduce_body')
+    t = refs(rw, t, ['identity', 'body', 'reduction'])
+    out.append(t)
+    s = slice_ctor(PR, r'lambda_reduce_body\( lambda_reduce_body& other, tbb::split \)', LB)
+    sliced.append('%s:%d lambda_reduce_body splitting constructor' % (PR, s.line))
+    t = ctor_c(rw, s, 'lambda_reduce_body_split_ctor(struct lambda_reduce_body* self, struct lambda_reduce_body* other)', order, cname='lambda_reduce_body')
+    t = fields(t)
+    out.append(t)
+    s = slice_block(PR, r'void operator\(\)\(Range& range\)', within=LB)
+    sliced.append('%s:%d lambda_reduce_body::operator()' % (PR, s.line))
+    t = 'void lambda_reduce_body_call(struct lambda_reduce_body* self, Range* range) ' + body_of(s.text)
+    t = fields(t)
+    t = refs(rw, t, ['range'])
+    out.append(t)
+    s = slice_block(PR, r'void join\( lambda_reduce_body& rhs \)', within=LB)
+    sliced.append('%s:%d lambda_reduce_body::join' % (PR, s.line))
+    t = 'void lambda_reduce_body_join(struct lambda_reduce_body* self, struct lambda_reduce_body* rhs) ' + body_of(s.text)
+    t = fields(t)
+    out.append(t)
+    common.write(ctx, 'lambda.inc', rw.std('\n'.join(out)) + '\n')
+    fired['lambda_reduce_body'] = rw.fired
+
+
+def extract_split_range(ctx, sliced, fired):
+    """parallel_sort.h quick_sort_range: pseudo_median_of_nine, split_range, splitting constructor (median_of_three comes from sort.inc)"""
+    rw = Rewriter('quick_sort_range')
+    QR = r'class quick_sort_range \{'
+    cls = slice_block(PS, QR)
+    order = member_order(cls.text, ['comp', 'size', 'begin'], 'quick_sort_range')
+    out = []
+
+    def comps(t, minc):
+        return rw.sub(t, r'\bcomp\(\s*([^,()]+(?:\[[^\]]*\])?)\s*,\s*([^,()]+(?:\[[^\]]*\])?)\s*\)', r'COMP_AT(&(\1), &(\2))', minc, name='comparator call on two lvalues -> COMP_AT(&a, &b) (stub: std::less<int>)')
+    s = slice_block(PS, r'std::size_t median_of_three\( const RandomAccessIterator& array, std::size_t l, std::size_t m, std::size_t r \) const', within=QR)
+    t = 'size_t median_of_three(RandomAccessIterator array, size_t l, size_t m, size_t r) ' + body_of(s.text)
+    t = comps(t, 5)
+    out.append(t)
+    s = slice_block(PS, r'std::size_t pseudo_median_of_nine\( const RandomAccessIterator& array, const quick_sort_range& range \) const', within=QR)
+    sliced.append('%s:%d quick_sort_range::pseudo_median_of_nine' % (PS, s.line))
+    t = 'size_t pseudo_median_of_nine(RandomAccessIterator array, const struct quick_sort_range* range) ' + body_of(s.text)
+    t = refs(rw, t, ['range'])
+    out.append(t)
+    s = slice_block(PS, r'std::size_t split_range\( quick_sort_range& range \)', within=QR)
+    sliced.append('%s:%d quick_sort_range::split_range' % (PS, s.line))
+    t = 'size_t split_range(struct quick_sort_range* self, struct quick_sort_range* range) ' + body_of(s.text)
+    t = rw.sub(t, r'std::iter_swap\(', 'ITER_SWAP(', 0, name='std::iter_swap -> ITER_SWAP (stub: exchanges two elements, tracks the ghost element)')
+    t = comps(t, 0)
+    t = rw.sub(t, r'pseudo_median_of_nine\(array, range\)', 'pseudo_median_of_nine(array, &range)', 0, name='reference argument -> address')
+    t = refs(rw, t, ['range'])
+    t = rw.asserts(t, 0)
+    t = tag_loops(t, 'split', rw)
+    out.append(t)
+    s = slice_ctor(PS, r'quick_sort_range\( quick_sort_range& range, split \)', QR)
+    sliced.append('%s:%d quick_sort_range splitting constructor' % (PS, s.line))
+    t = ctor_c(rw, s, 'quick_sort_range_split_ctor(struct quick_sort_range* self, struct quick_sort_range* range)', order, cname='quick_sort_range')
+    t = rw.sub(t, r'(?<![\w.>])split_range\(range\)', 'split_range(self, &range)', 0, name='method + reference argument -> address')
+    t = refs(rw, t, ['range'])
+    out.append(t)
+    common.write(ctx, 'split_range.inc', rw.std('\n'.join(out)) + '\n')
+    fired['quick_sort_range'] = rw.fired
+
+
 def extract(ctx):
     sliced, fired = [], {}
     rw = Rewriter('parallel_sort')
@@ -216,10 +741,32 @@ def build(ctx):
     sliced, fired = extract(ctx)
     nov = extract_dispatch(ctx, sliced, fired)
     extract_fold(ctx, sliced, fired)
+    extract_reduce(ctx, sliced, fired)
+    extract_detred(ctx, sliced, fired)
+    extract_lambda(ctx, sliced, fired)
+    extract_split_range(ctx, sliced, fired)
     C = os.path.join(HERE, 'c06.c')
     jobs = [
         Job('reduce.fold_tree', C, 'h_fold', route='RG', loops=True, nloops=1, defines=['FOLD'], target='fold_tree<TreeNodeType> (any tree depth, any number of concurrently finishing children)', source=PT,
             inputs=['IN_depth', 'IN_start', 'IN_k', 'IN_others'], timeout=300),
+        Job('reduce.execute', C, 'h_red_execute', route='RG', defines=['REDUCE'], target='start_reduce::execute + finalize (lazy body split against a concurrently finishing left sibling)', source=PR),
+        Job('reduce.cancel', C, 'h_red_cancel', route='LF', defines=['REDUCE'], target='start_reduce::cancel + finalize', source=PR),
+        Job('reduce.offer_work.split', C, 'h_red_offer_split', route='LF', defines=['REDUCE'], target='start_reduce::offer_work_impl<start_reduce&, split_type&> + splitting constructor + reduction_tree_node/tree_node/node constructors + spawn_self', source=PR),
+        Job('reduce.offer_work.demand', C, 'h_red_offer_demand', route='LF', defines=['REDUCE'], target='start_reduce::offer_work_impl<start_reduce&, const Range&, depth_t> + demand constructor + reduction_tree_node/tree_node/node constructors + spawn_self', source=PR),
+        Job('reduce.run', C, 'h_red_run4', route='LF', defines=['REDUCE'], target='start_reduce::run(range, body, partitioner, context) + root constructor + wait_node constructor', source=PR),
+        Job('reduce.run.own_context', C, 'h_red_run3', route='LF', defines=['REDUCE'], target='start_reduce::run(range, body, partitioner)', source=PR),
+        Job('reduce.join', C, 'h_red_join', route='LF', defines=['REDUCE'], target='reduction_tree_node::join', source=PR),
+        Job('detreduce.execute', C, 'h_det_execute', route='LF', defines=['DETRED'], target='start_deterministic_reduce::execute + finalize', source=PR),
+        Job('detreduce.cancel', C, 'h_det_cancel', route='LF', defines=['DETRED'], target='start_deterministic_reduce::cancel + finalize', source=PR),
+        Job('detreduce.offer_work', C, 'h_det_offer', route='LF', defines=['DETRED'], target='start_deterministic_reduce::offer_work_impl + splitting constructor + deterministic_reduction_tree_node/tree_node/node constructors + spawn_self', source=PR),
+        Job('detreduce.run', C, 'h_det_run4', route='LF', defines=['DETRED'], target='start_deterministic_reduce::run(range, body, partitioner, context) + root constructor + wait_node constructor', source=PR),
+        Job('detreduce.run.own_context', C, 'h_det_run3', route='LF', defines=['DETRED'], target='start_deterministic_reduce::run(range, body, partitioner)', source=PR),
+        Job('detreduce.join', C, 'h_det_join', route='LF', defines=['DETRED'], target='deterministic_reduction_tree_node::join', source=PR),
+        Job('reduce.lambda.join', C, 'h_lambda_join', route='LF', defines=['LAMBDA'], target='lambda_reduce_body::join', source=PR),
+        Job('reduce.lambda.call', C, 'h_lambda_call', route='LF', defines=['LAMBDA'], target='lambda_reduce_body::operator()', source=PR),
+        Job('reduce.lambda.ctors', C, 'h_lambda_ctors', route='LF', defines=['LAMBDA'], target='lambda_reduce_body constructors (from identity; splitting)', source=PR),
+        Job('sort.split_range', C, 'h_split', route='LC', loops=True, nloops=3, defines=['SPLIT'], timeout=600, inputs=['IN_n', 'IN_q', 'IN_k0'],
+            target='quick_sort_range::split_range + pseudo_median_of_nine + median_of_three + splitting constructor (any range size)', source=PS),
         Job('reduce.dispatch', C, 'h_reduce_dispatch', route='LF', defines=['DISPATCH'], target='all %d public overloads of parallel_reduce / parallel_deterministic_reduce' % nov, source=PR, inputs=['IN_overload'],
             must_have=['parallel_deterministic_reduce(Range, Value, RealBody, Reduction, static_partitioner, task_group_context) ends in the runner']),
         Job('sort.probe_coverage', C, 'h_probe', route='LC', loops=True, nloops=1, unwind=12, timeout=600, defines=['SORT'],
@@ -238,6 +785,8 @@ def build(ctx):
 
 
 def replay(ctx, jobname, failure):
+    if not jobname.startswith('sort.') or jobname == 'sort.split_range':
+        return {'reproduced': False, 'detail': 'no native recipe yet for ' + jobname}
     exe = native.build([os.path.join(HERE, 'c06_replay.cpp')], os.path.join(ctx.work, 'c06_replay'), link_tbb=True)
     rc, out = native.run([exe, jobname], timeout=120)
     rep = {'cmd': exe + ' ' + jobname, 'rc': rc, 'output': out[-1500:], 'reproduced': False, 'detail': 'native search found no failing input'}
